@@ -102,9 +102,22 @@ Fixpoint zr_check (seen : bool) (i : ops) (o : outs) : bool :=
   | _, _ => false
   end.
 
+(** The part of the case before the rejection is an ordinary [flow_send] case: the credit ledger
+    and the FIN ledger of Model/FlowSend.v apply to it (this is where a Retry is checked). *)
+Fixpoint prefix_len (i : ops) : nat :=
+  match i with
+  | [] => O
+  | op :: t => if arg op 0 =? 20 then O else S (prefix_len t)
+  end.
+
 Definition oracle (i : ops) (o : outs) : bool :=
   if wf_static (expand20 i) && existsb (fun op => arg op 0 =? 20) i then
-    if is_panic o then false else zr_check false i o
+    if is_panic o then false
+    else
+      let n := prefix_len i in
+      zr_check false i o
+      && led_run (firstn n i) (firstn n o) (led_init 0 0 (2 ^ 20))
+      && fin_run (firstn n i) (firstn n o) (mkFinLed [] [] [] [])
   else true.
 
 Definition no_oracle (i : ops) (o : outs) : bool := true.
